@@ -34,7 +34,7 @@ ASSUMPTIONS = [
 	"where |delta_in| < 1e-6 the ordinary derivative at the example's "
 	"pre-activation is the expected factor",
 ]
-REQUIRED = {"prior_override_calls": 10, "pairs_compared": 200, "units_with_ratio": 500,
+REQUIRED = {"models_with_user_forward_hooks": 5, "prior_override_calls": 10, "pairs_compared": 200, "units_with_ratio": 500,
 	"units_with_zero_delta": 100, "affine_cases": 3}
 TECHNIQUE = ("runtime monitoring: independent layer-by-layer rescale-rule "
 	"reference compared element-wise with every observed deep_lift_shap "
@@ -75,6 +75,15 @@ def run_case(cls, params, rec):
 			if isinstance(m_, torch.nn.RReLU):
 				m_.train()
 				rec.count("rrelu_layers_left_in_train_mode")
+	if params.get("user_hooks", gen.pyrng("C05hooks", params["wseed"],
+		params["iseed"] if "iseed" in params else 0).randrange(5) == 0):
+		# the caller's own harmless forward hooks on the non-linear layers
+		# (an activation recorder): the rules must still be applied there
+		seen_ = []
+		for m_ in model.modules():
+			if isinstance(m_, dls.ACT_TYPES + (torch.nn.MaxPool1d,)):
+				m_.register_forward_hook(lambda mod, i, o: seen_.append(1))
+		rec.count("models_with_user_forward_hooks")
 	target = params["target"]
 	desc = {"arch": dls.describe(spec), "A": A, "L": L, "n": n,
 		"n_shuffles": ns, "batch_size": params["batch_size"],
